@@ -162,6 +162,19 @@ def run_chunked(args, data, chunk, env=None, timeout=60, cwd=None, empty_after=N
     return rc, out, err
 
 
+def hang_storm(raise_it=False):
+    """Workers of one check run share a marker: once one of them has seen three runs end in the time limit, the others stop
+    starting new cases (each would cost the full time limit again). The marker carries the pid of the run that owns it."""
+    p = os.path.join(WORK, 'hangstorm-%d' % os.getppid())
+    if raise_it:
+        try:
+            open(p, 'w').close()
+        except OSError:
+            pass
+        return True
+    return os.path.exists(p)
+
+
 def clean_stale_work():
     """scratch files and directories are named after the process that made them; what belongs to a process that is gone
     (a run that was interrupted, or ended early on a violation) is removed - a C03 batch directory is about 1 GB"""
